@@ -43,7 +43,8 @@ var CPC = cpctypes.CpcStakingFixedAddress
 //	cW  ... with CALL, swallows a failure (outer tx succeeds)       (stores the flag)
 //	cT  two CALLs in one transaction (calldata = len1 | payload1 | payload2)
 //	cN  DELEGATECALLs cC's code, which CALLs the precompile: the calling code runs in cN's context      (nested)
-var ContractNames = []string{"cC", "cD", "cO", "cS", "cW", "cT", "cN"}
+//	cQ  up to three CALLs in one message, views included, every answer kept in storage (seq.go)                (seq)
+var ContractNames = []string{"cC", "cD", "cO", "cS", "cW", "cT", "cN", "cQ"}
 
 func contractAddr(i int) common.Address {
 	return common.BytesToAddress(append([]byte("verif-stk-contract"), byte(i+1)))
@@ -166,7 +167,7 @@ func New(o Opts) *World {
 	co.Bal = 150_000_000
 	co.CpcDeployStaking = o.Decimals == 0
 	codes := [][]byte{forwarder(asm.CALL, false), forwarder(asm.DELEGATECALL, false), forwarder(asm.CALLCODE, false),
-		forwarder(asm.STATICCALL, false), forwarder(asm.CALL, true), twice(), forwarderTo(asm.DELEGATECALL, contractAddr(0), false)}
+		forwarder(asm.STATICCALL, false), forwarder(asm.CALL, true), twice(), forwarderTo(asm.DELEGATECALL, contractAddr(0), false), seqCode()}
 	for i, n := range ContractNames {
 		co.Contracts = append(co.Contracts, chain.GenContract{Addr: contractAddr(i), Code: codes[i], Bal: o.CBal})
 		w.add(n, contractAddr(i))
